@@ -65,6 +65,17 @@ class Namer:
         return n
 
 
+def respell_refs(d, rng, p=0.3):
+    """Copy of d in which some refs spell their target differently (`Bab` -> `bab`): the same name after normalisation,
+    so the same definition (seed C13-7 ran the address checks before names_normalized, where such a ref has no target)."""
+    import copy
+    d2 = copy.deepcopy(d)
+    for o, _, _ in all_objects(d2["objects"]):
+        if o["kind"] == "ref" and rng.random() < p:
+            o["target"] = o["target"][0].lower() + o["target"][1:]
+    return d2
+
+
 def small_field():
     return [adef.mk_field("v", "uint", 0, 8)]
 
@@ -180,7 +191,9 @@ def run_batch(ctx, exe, items, fn, tag="b", want=("mir",)):
             terms.append((i, t))
     fns = fn if isinstance(fn, (list, tuple)) else [fn]
     for k, f in enumerate(fns):
-        m = gen_common.eval_model(ctx, ["Addr"], f, terms, tag=f"{tag}_m{k}")
+        # the address passes and the lowering see the tree AFTER names_normalized (run_passes order): the model is applied
+        # to the normalised MIR, so a ref may spell its target in any way that normalises to the declared name
+        m = gen_common.eval_model(ctx, ["Addr", "Names"], f, [(i, f"Names.names_normalized ({t})") for i, t in terms], tag=f"{tag}_m{k}")
         for i, v in m.items():
             if k == 0:
                 out[i]["coq"] = v
